@@ -102,7 +102,7 @@ def scenarios(ctx):
     out.append(Std('pubsub-ka', profile='pubsub', mode='async',
                    init=(('connect', 0, True, 2, 4), ('connack', 0, 0, False)), reconnects=[(True, 2, 4)],
                    pub_qos=(1,), drain_horizon=20.0, drain_max_ticks=40,
-                   budgets=dict(common, pub=1, sub=1, ack=1, tick=4, pingresp=2)))
+                   budgets=dict(common, pub=1, sub=1, ack=1, tick=4, pingresp=2, disconnect=1)))
     return out
 
 
